@@ -580,3 +580,82 @@ def o4(ctx):
     for k, (ok, wit) in res.items():
         obs.append(Ob('O4', 'throttle/' + k, ok and n_spend > 0 and n_wait > 0 and n_cap > 0, msgs[k], f.loc(), wit))
     return obs
+
+
+@rule('O5', floor=8, title='recipe classes pass their expire/tag to every write of their key and retry=True to every cache operation')
+def o5(ctx):
+    """Sibling agreement inside each recipe: acquire and release (add and pop ...) store the key with the same
+    expire/tag the object was created with, and no operation of a recipe may time out (retry=True)."""
+    obs = []
+    for cname in ('Averager', 'Lock', 'RLock', 'BoundedSemaphore'):
+        ci = ctx.prog.classes[cname]
+        for mname, f in sorted(ci.methods.items()):
+            if mname in ('__init__',) or (mname.startswith('_') and not mname.startswith('__')):
+                continue        # private helpers are judged inlined into the public methods
+            okw, okr, n = True, True, 0
+            for p in ctx.paths(f, 'plain'):
+                for e in p.trace:
+                    if e.kind == 'TXN_ENTER' and e.d.get('tkind') == 'delegate' or \
+                            (e.kind == 'CALL' and e.d['name'] == 'transact'):
+                        r = e.d.get('retry') if e.kind == 'TXN_ENTER' else e.d['kwargs'].get('retry')
+                        n += 1
+                        if not (r is not None and r.is_const and r.val is True):
+                            okr = False
+                    if e.kind != 'CALL' or e.d.get('inlined') or not all(t.cls in ('Cache', 'FanoutCache') for t in e.d['targets']):
+                        continue
+                    t = e.d['targets'][0]
+                    if e.d['recv'] is None or e.d['recv'].k != 'selfattr':
+                        continue
+                    n += 1
+                    if t.name in ('set', 'add'):
+                        for kw, attr in (('expire', '_expire'), ('tag', '_tag')):
+                            v = e.d['kwargs'].get(kw)
+                            if v is None and kw in t.params:
+                                i = t.params.index(kw)
+                                v = e.d['args'][i] if i < len(e.d['args']) else None
+                            if not (v is not None and v.k == 'selfattr' and v.a[1] == attr):
+                                okw = False
+                    if 'retry' in t.params and not e.txn:
+                        r = e.d['kwargs'].get('retry')
+                        if not (r is not None and r.is_const and r.val is True):
+                            okr = False
+            if n == 0:
+                continue
+            obs.append(Ob('O5', '%s.%s/expire-and-tag' % (cname, mname), okw,
+                          '%s.%s writes the key without the expire/tag of the object: the entry written by this method '
+                          'is not covered by evict(tag) / expires differently from the one its sibling wrote' %
+                          (cname, mname), f.loc()))
+            obs.append(Ob('O5', '%s.%s/retry' % (cname, mname), okr,
+                          '%s.%s performs a cache operation outside a transaction block without retry=True (or enters '
+                          'its block without it): the recipe can raise Timeout under contention' % (cname, mname),
+                          f.loc()))
+    # decorator recipes: operations on the `cache` argument
+    for f in ctx.prog.all_funcs():
+        if f.module != 'recipes' or f.cls is not None:
+            continue
+        root = f
+        while root.parent is not None:
+            root = root.parent
+        if root.name not in ('throttle', 'barrier', 'memoize_stampede'):
+            continue
+        okr, n = True, 0
+        for p in ctx.paths(f, 'plain'):
+            for e in p.trace:
+                if e.kind == 'CALL' and not e.d.get('inlined') and e.fn is f and \
+                        all(t.cls in ('Cache', 'FanoutCache') for t in e.d['targets']):
+                    t = e.d['targets'][0]
+                    if 'retry' in t.params and not e.txn and t.name not in ('transact',):
+                        n += 1
+                        r = e.d['kwargs'].get('retry')
+                        if not (r is not None and r.is_const and r.val is True):
+                            okr = False
+                if e.kind == 'TXN_ENTER' and e.fn is f:
+                    n += 1
+                    r = e.d.get('retry')
+                    if not (r is not None and r.is_const and r.val is True):
+                        okr = False
+        if n:
+            obs.append(Ob('O5', '%s/retry' % f.qual.replace('recipes.', ''), okr,
+                          '%s performs a cache operation without retry=True: the recipe can raise Timeout under '
+                          'contention' % f.qual, f.loc()))
+    return obs
